@@ -27,6 +27,7 @@ cur_errno(struct mmgr *mm)
         return imb_get_errno(mm->m);
 }
 
+static __thread char errno_ctx[80];
 static void
 errno_check(struct mmgr *mm, const char *call, int expect)
 {
@@ -37,7 +38,7 @@ errno_check(struct mmgr *mm, const char *call, int expect)
         cov_count("errno_checks", 1);
         if (!ok) {
                 char key[200], det[200];
-                snprintf(key, sizeof key, "C14|%s|errno|%s|expect%d|got%d", vn(mm), call, expect, e);
+                snprintf(key, sizeof key, "C14|%s|errno|%s|expect%d|got%d%s", vn(mm), call, expect, e, errno_ctx);
                 snprintf(det, sizeof det, "after %s the manager error code is %d (%s), expected %d", call,
                          e, imb_get_strerror(e), expect);
                 ev_violation("C14", key, det, NULL);
@@ -304,9 +305,11 @@ mm_submit_job(struct mmgr *mm, int nocheck, int expect_err)
                 mm->n_wraps++;
         int was = mm->count;
         mm->next_slot = NULL;
+        snprintf(errno_ctx, sizeof errno_ctx, "|%s|%s", cipher_name(e->snap.cipher_mode), hash_name(e->snap.hash_alg));
         IMB_JOB *r = (IMB_JOB *) mcall(cn, (void *) (nocheck ? mm->m->submit_job_nocheck : mm->m->submit_job),
                                        1, (uint64_t) mm->m);
         errno_check(mm, cn, expect_err);
+        errno_ctx[0] = 0;
         if (was >= IMB_MAX_JOBS) {
                 mm->n_full++;
                 if (r == NULL) {
